@@ -30,7 +30,7 @@ TABLE = {
                 "agreement, default-table agreement with draw(), per-style table agreement (patterns, _style_args, renderer parameters), anchoring of the style "
                 "field parser and absence of side effects in the checking functions.",
         "note": _NOTE + " The style sub-grammar acceptance is decided as table/anchoring agreement, not as a language. Non-ASCII category members are represented by sample code points.",
-        "technique": "regular-language algebra on regex literals (re._parser -> NFA -> DFA product, shortest witness) + table agreement + effect query",
+        "technique": "regular-language algebra on constant-folded regex sources (re._parser -> NFA -> DFA product, shortest witness), group-to-use tracing with case specialisation of the traced expressions, table agreement, effect query",
     },
     "C20": {
         "text": "Resolution instance -> class -> default is Python attribute lookup provided override cells are written correctly; the rules decide exactly that: "
@@ -46,14 +46,14 @@ TABLE = {
                 "style's interrupted-draw hook on all handler paths; graphics styles' hooks emit ST*2 (+ end-of-chunk) flushed; frame position, dynamic size, "
                 "iterator and render data are restored/closed in finally blocks covering every frame render; animations swallow Ctrl-C, still draws re-raise.",
         "note": _NOTE + " Clean-up code is treated as atomic (the property stops at 'before its own clean-up starts'). Partial-write byte cuts and terminals' recovery after ST are device behaviour, not decided.",
-        "technique": "pairing / lexical protection by try-finally, handler-class coverage (must-catch sets), must-call on the handler CFG, class-hierarchy exhaustiveness",
+        "technique": "pairing / lexical protection by try-finally, handler-class coverage (must-catch sets) of every write, wait and frame step, must-call on the handler CFG, class-hierarchy exhaustiveness, termios save/modify/restore discipline (shared with C13)",
     },
     "C10": {
         "text": "Must-finalize with ownership on a CFG with exceptional edges (single-fault leak-point analysis): for every statement at which a fault can occur "
                 "after render data was created, the data is finalized or was handed over before the function is left; once-flag shape of finalize()/close(); "
                 "iterator handlers close before raising; caller-owned data follows the finalize parameter; no generator step after finalization.",
         "note": _NOTE + " 'Exactly once' as a count over histories is reduced to once-flag + must-finalize; garbage-collection timing is not modelled. One recorded known finding (K4c).",
-        "technique": "typestate / must-release dataflow on a statement CFG with exceptional edges, flag-specialised on the ownership parameter; dominance checks",
+        "technique": "typestate / must-release dataflow on a statement CFG with exceptional edges, flag-specialised on the ownership parameter; dominance checks; who-may-call table for finalize() with ownership guard",
     },
     "C16": {
         "text": "The laws behind the property as effects and agreements over all methods: no non-constructor method of the immutable classes stores to an existing "
@@ -69,7 +69,7 @@ TABLE = {
                 "dimension' agree (max(t+d,1)); resolve() preserves every other field; the alignment table and the margin formulas are checked as polynomials "
                 "(near = pad*n//d, far = pad-near, padded = l+w+r); pad-iff-different with unpadded operands; padding after the cache.",
         "note": _NOTE + " That the composed string occupies exactly the box on a terminal (cursor-moving inner renders, fills) is a terminal-model question, not decided.",
-        "technique": "may-taint/dominance dataflow on the CFG, field-store discipline, pattern matching with metavariables + polynomial normal forms for formulas, table agreement",
+        "technique": "may-taint/dominance dataflow on the CFG, field-store discipline, margin formulas as polynomials over traced expressions, symbolic output shape of Padding.pad / _format_render (margin counts per case of fill x alignment), table agreement",
     },
     "C08": {
         "text": "Per-operation invariants every history relies on: closed-guard first; validate-before-mutate (no raise reachable after a state store); settings read at "
@@ -77,14 +77,14 @@ TABLE = {
                 "four attributes of the renderable and writes none; sibling seek rules agree and every accepted seek is recorded on all non-raising paths; the padded size "
                 "is recomputed from the stored padding and current size; cached frames are stored unpadded.",
         "note": _NOTE + " The frame sequence / loop countdown for an arbitrary operation history is a state-machine question over runtime counters - not decided.",
-        "technique": "dominance and reachability on the CFG (validate-before-mutate, must-record), reaching-definition / snapshot scan, who-may-use table, sibling agreement",
+        "technique": "dominance and reachability on the CFG (validate-before-mutate, must-record), reaching-definition / snapshot scan, who-may-use and who-may-write tables for every state cell, sibling agreement, finite-domain decision of the seek rejection predicate",
     },
     "C09": {
         "text": "Cache-key coverage as table agreement: the set of cells that control methods can change (discovered from the setters) intersected with the inputs of "
                 "_render_ must appear in the compared key, and stored details equal compared details; the cache index is the rendered frame number; padded frames are never "
                 "stored; a hit renders nothing; cache switch (INDEFINITE, bool, frame_count<=cache, loops==1); ImageIterator stores a fresh size hash after each render.",
         "note": _NOTE + " Relational equivalence of cached and uncached runs over all histories is not decided.",
-        "technique": "writer-table vs reader-table agreement (mutable cells vs cache key), CFG reachability (no store after padding), guard containment, def-use of the size hash",
+        "technique": "writer-table vs reader-table agreement (mutable cells vs cache key), per-entry validity on traced expressions, inventory of per-frame stores, CFG reachability (no store after padding), finite-domain decision of the cache switch, def-use of the size hash",
     },
     "C01": {
         "text": "Every control-sequence template of _ctlseqs.py is constant-folded from the syntax tree and parsed against an ECMA-48 template grammar (complete "
@@ -92,7 +92,7 @@ TABLE = {
                 "cursor/erase template proven >= 1 (size clamp or dominating guard); per renderer the newline-bearing fragments occur rendered_height-1 times in recognised "
                 "idioms, lines end with the style's cursor policy (kitty C=1 + CUF w; iterm2 doNotMoveCursor iff konsole advance; block SGR reset), chunked transmissions terminate.",
         "note": _NOTE + " That the payload paints c x r cells, wrapping/scrolling and the konsole/iterm2 cursor-movement model are terminal behaviour - not decided.",
-        "technique": "constant folding + grammar check of control-sequence templates, sign analysis of template operands, idiom-based line-structure rules, who-may-write on the escape alphabet",
+        "technique": "constant folding + grammar check of control-sequence templates, sign analysis of template operands, symbolic output-shape analysis of the renderers (regular-expression-like term of the emitted text; newline count as a polynomial, Glushkov follow sets, case split on the free conditions), who-may-write on the escape alphabet",
     },
     "C03": {
         "text": "Chunk protocol decided on the generator's look-ahead structure (or on recognised alternatives via polynomial comparison of position vs length); "
@@ -100,7 +100,7 @@ TABLE = {
                 "(seek/tell/seek/read; seek/save/truncate/tell per reused strip buffer); the read-from-file gate has exactly the documented conjuncts; the o=z flag is "
                 "set under state-only conditions because the ControlData is shared across strips.",
         "note": _NOTE + " Decoded payload == image pixels and strip stitching are runtime data (zlib/base64/PNG) - not decided.",
-        "technique": "protocol rule over a generator (look-ahead idiom / affine boundary evaluation), key-provenance and table agreement, call-order typestate on buffers, guard-set comparison",
+        "technique": "protocol rule over a generator (look-ahead idiom / affine boundary evaluation), control-key provenance on traced expressions (backward value slices), image-command arguments read off the symbolic output shape, call-order typestate on buffers, guard-set comparison, must-order on the CFG",
     },
     "C12": {
         "text": "Request/stop-predicate/drain/parser agreement at every query_terminal call site (DA1 sentinel last; complete vs prefix predicate by reply alphabet; "
@@ -116,14 +116,14 @@ TABLE = {
                 "closure is updated after a flush; the emission branches are mirror images; the kitty workaround tests the cluster it nudges; alpha classification "
                 "(round_alpha, strict <, compositing under state-only conditions).",
         "note": _NOTE + " Every actual colour / alpha value (PIL resampling, compositing) is runtime data - not decided.",
-        "technique": "symmetry check of a canonicalised boolean formula under a renaming, free-variable / loop-carried state completeness, branch-table symmetry, guard-set analysis",
+        "technique": "decision of the run-boundary predicate against its specification over a finite abstract domain (648 valuations), emission truth table of update_buffer from its symbolic output shape, loop-carried state completeness, must-order on the CFG (convert before resize, seek iff animated), guard-set analysis, memo safety",
     },
     "C04": {
         "text": "Necessary structure of the sizing code: every return of _valid_size clamps both dimensions with `or 1`; unit conversions are inverse pairs sharing one "
                 "unit source per axis with _get_render_size; dynamic sizes are re-evaluated on every access, never memoised, restored after rendering, with a closed set "
                 "of writers; every Size member is handled; AUTO tests exactly ORIGINAL's pixel size; the two FIT branches mirror each other under width<->height.",
         "note": _NOTE + " The fit/fill/aspect inequalities (float rounding over five quantities) need a relational numeric domain or a solver - NOT decided by this family.",
-        "technique": "return-shape rule, inverse-pair and sibling (renaming) agreement, who-may-write / who-may-cache query, enum exhaustiveness",
+        "technique": "return-shape rule, inverse-pair agreement on traced unit expressions, sibling agreement by unification (width<->height renaming found, not assumed), who-may-write / who-may-cache query, enum exhaustiveness, memo safety",
     },
     "C06": {
         "text": "The cursor bookkeeping is arithmetic over symbols, decided as an affine computation: each write in the animation drivers is mapped to a row displacement "
@@ -131,7 +131,7 @@ TABLE = {
                 "render region, on normal completion on the last line of the padded region (then exactly one newline). Plus operand signs, validate-before-write with the "
                 "documented width/height/scroll predicate, complementary version predicates for per-frame clearing.",
         "note": _NOTE + " What a terminal does with the bytes (scrolling at the bottom, margins) is not decided. One recorded known finding (K1, old API ends `lines` rows too low).",
-        "technique": "affine dataflow of the cursor row over a transfer table (polynomial normal forms), sign analysis, guard-conjunct analysis, order/dominance checks",
+        "technique": "affine dataflow of the cursor row over a transfer table applied to traced write expressions (polynomial normal forms over render size and padding margins), sign analysis, guard-conjunct analysis, order/dominance checks (nothing written before validation)",
     },
     "C11": {
         "text": "Ownership discipline of PIL images with few named primitives: who-may-close (only fresh objects, or through _close_image which spares the source), "
@@ -146,7 +146,7 @@ TABLE = {
                 "right padding), backward colour recovery up to the last 'm', fast path only without horizontal trim; the canvas uses its recorded image size and the same "
                 "centre split as _format_render.",
         "note": _NOTE + " The main clause - trimmed canvas == crop of the full canvas, including _ti_calc_trim's case arithmetic - is byte-level runtime data and is NOT decided.",
-        "technique": "sibling (normalised-AST) agreement of twin computations, list-order rule, who-may-read query on the live image",
+        "technique": "agreement of rows() and render() as traced expressions per case (FIT/AUTO), padding split via the traced arguments of _ti_calc_trim specialised per alignment, symbolic output shape of _format_render, row-assembly order by content, who-may-read query on the live image",
     },
     "C18": {
         "text": "Synchronized-update bracket (BEGIN immediately before a try whose finally writes END and flushes, all output inside), delete-before-draw through the buffered "
